@@ -275,6 +275,9 @@ func report(r *evid.Run, cs Case, msg string) {
 }
 
 func replayCase(cs Case) string {
+	if m, ok := replayExtra(cs); ok {
+		return m
+	}
 	switch cs.Part {
 	case "invalid-text":
 		return checkInvalid(cs.Input)
@@ -318,7 +321,9 @@ func Run(r *evid.Run) {
 	encoderPositions(r)
 	pointerAlgebra(r)
 	invalidTexts(r)
+	escapedNames(r)
 	semantic(r)
+	semanticBefore(r)
 }
 
 func decoderPositions(r *evid.Run) {
